@@ -3,26 +3,9 @@
   documented structural rules of the independent specification (Spec/Mp4Rules.lean), as far as the top level goes.
 -/
 import MediaSan.Lemmas.MediaRun
+import MediaSan.Lemmas.TreeRel
 namespace MediaSan.Mp4
 open MediaSan MediaSan.Spec.Mp4Walk MediaSan.Spec.Mp4Rules
-
-/-! ### slices of a stream -/
-
-theorem read_take (s : Stream) (p m k : Nat) (h : k ≤ m) : (s.read p m).take k = s.read p k := by
-  apply List.ext_getElem
-  · simp [Stream.read]; omega
-  · intro i h1 h2
-    simp [Stream.read]
-
-theorem read_drop (s : Stream) (p m k : Nat) : (s.read p m).drop k = s.read (p + k) (m - k) := by
-  apply List.ext_getElem
-  · simp [Stream.read]
-  · intro i h1 h2
-    simp [Stream.read]
-    congr 1
-    omega
-
-theorem read_length (s : Stream) (p m : Nat) : (s.read p m).length = m := by simp [Stream.read]
 
 /-- the model's `chunks_exact(4)` over a slice of the stream is the specification's list of brands -/
 theorem brandList_read (s : Stream) (fuel p m : Nat) (hf : m / 4 ≤ fuel) :
@@ -69,7 +52,8 @@ variable (s : Stream) (kind : SkipKind)
 
 /-- what the loop has checked about the payload of a box it keeps -/
 def BoxSide (cfg : Config) (b : TopBox) : Prop :=
-  (b.name = ftypN → ftypOk s b = true) ∧ (b.name = moovN → b.payloadLen ≤ cfg.maxMetadataSize)
+  (b.name = ftypN → ftypOk s b = true) ∧
+  (b.name = moovN → moovOk s ⟨cfg.maxMetadataSize, cfg.cumulativeMdatBoxSize⟩ b = true)
 
 def TopPost (cfg : Config) (startPos : Nat) (st : ScanState) (st' : ScanState) (_pos' : Nat) : Prop :=
   ∃ b, headerAt s startPos s.len cfg.cumulativeMdatBoxSize = .ok b ∧ topStep (topOf st) b = some (topOf st') ∧
@@ -276,6 +260,7 @@ theorem scanBody_top (cfg : Config) (st : ScanState) (startPos : Nat) (header : 
       apply Tri.done
       obtain ⟨b, hb, hbo, hbe, hbn, hbh⟩ := box_of_size' s startPos pos n cfg.cumulativeMdatBoxSize header hpos hs
         (fun _ => Or.inr (by rw [hname]; decide))
+      have hpo : b.payloadOff = pos := by unfold TopBox.payloadOff; omega
       have hpn : b.payloadLen = n := by unfold TopBox.payloadLen TopBox.payloadOff; omega
       refine Tri.done ⟨b, by rw [hspec]; exact hb, ?_, ?_, ?_⟩
       · unfold topStep
@@ -290,7 +275,15 @@ theorem scanBody_top (cfg : Config) (st : ScanState) (startPos : Nat) (header : 
         have : st.ftyp.isSome = true := hft
         simp [hbo, this]
       · intro hf; rw [hbn, hname] at hf; exact absurd hf (by decide)
-      · intro _; rw [hpn]; exact hnL
+      · intro _
+        obtain ⟨rs, hrs, hall⟩ := validateMoov_tables s b (by omega) r.1 r.2 (by rw [hpo, hpn, ← hpl]; exact hvm)
+        unfold moovOk
+        simp only [hrs, Bool.and_eq_true, decide_eq_true_eq]
+        refine ⟨by rw [hpn]; exact hnL, ?_⟩
+        rw [List.all_eq_true]
+        intro x hx
+        simp only [decide_eq_true_eq]
+        exact hall x hx
   split
   · rename_i hc
     have nm : name4 header = metaN ∨ name4 header = mecoN := by
@@ -569,8 +562,7 @@ theorem foldTop_moov (bs : List TopBox) (t t' : TopSt) (h : foldTop t bs = some 
 
 /-! ### the documented top-level rules, in the Spec's words -/
 
-/-- `Rules` of Spec/Mp4Rules.lean without the walk being clean and without the moov-tree part of `moovOk`:
-    what the scan loop alone establishes -/
+/-- `Rules` of Spec/Mp4Rules.lean without the clause that the walk is clean, as propositions -/
 def RulesTop (s : Stream) (c : Cfg) (bs : List TopBox) : Prop :=
   (match bs.drop (bs.takeWhile (fun b => b.name = (cc 'f' 'r' 'e' 'e') ∨ b.name = (cc 's' 'k' 'i' 'p'))).length with
     | b :: _ => b.name = (cc 'f' 't' 'y' 'p') ∧ ftypOk s b = true
@@ -578,7 +570,7 @@ def RulesTop (s : Stream) (c : Cfg) (bs : List TopBox) : Prop :=
   (bs.filter (·.name = (cc 'f' 't' 'y' 'p'))).length = 1 ∧
   (∀ b ∈ bs, isKnownTop b.name = true) ∧
   (bs.filter (·.name = (cc 'm' 'o' 'o' 'v'))) ≠ [] ∧
-  (∀ m ∈ bs.filter (·.name = (cc 'm' 'o' 'o' 'v')), m.payloadLen ≤ c.maxMetadataSize) ∧
+  (∀ m ∈ bs.filter (·.name = (cc 'm' 'o' 'o' 'v')), moovOk s c m = true) ∧
   (bs.filter (·.name = (cc 'm' 'd' 'a' 't'))) ≠ [] ∧
   (∀ m ∈ bs.filter (·.name = (cc 'm' 'd' 'a' 't')), m ∈ mediaRun bs)
 
